@@ -138,10 +138,6 @@ def _arith(op, a, b):
         if is_const(a) and cval(a) == 0:
             return neg(b)
     else:
-        if a is b and a.op == "var" and a.args[0].startswith("root!2!") and CUR is not None:
-            x = CUR.roots.get(a.args[0])
-            if x is not None and x.d is None:
-                return x.n  # sqrt(x)*sqrt(x) -> x (x >= 0 was decided when the root was introduced)
         for x, y in ((a, b), (b, a)):
             if is_const(x):
                 if cval(x) == 0:
